@@ -196,6 +196,14 @@ func runC07(e *Env) Outcome {
 		if !e.Thorough() && depth > 1001 {
 			depth = 1001
 		}
+		if t.Chance("very-deep", 1, 30) {
+			// hundreds of thousands of levels: under the worker's 64 MB stack
+			// cap this shows whether the recursion of the parser / decoder is
+			// bounded at all (the nesting limit of the rules must act before
+			// anything recursive sees the document)
+			depth = 300000
+			e.Count("docs_very_deep_nesting", 1)
+		}
 		bytes = deepDoc(f, depth, t.Intn("deep-kind", 3))
 		e.Count("docs_deep_nesting", 1)
 	default:
